@@ -1,7 +1,9 @@
 CONSTANTS
   Depth = 2
   AllVias = FALSE
+  LastAllVias = FALSE
   Prune = TRUE
   PruneLast = FALSE
+  Repr = FALSE
 SPECIFICATION Spec
 INVARIANT Emit
